@@ -876,6 +876,11 @@ private:
               VALIDATE_CANARY();
               ++_busyThreads; // Thread has picked up work (for spawning
                               // decisions)
+              // Count the task as active while the queue lock is still held:
+              // drain()/shutdown() poll "active == 0 && pending == 0", and a
+              // task that has left the queue but is not yet counted would let
+              // them report completion while it is still about to run.
+              ++_activeThreads;
             }
           }
 
@@ -883,7 +888,6 @@ private:
           if (task)
           {
             VALIDATE_CANARY();
-            ++_activeThreads; // Thread is now executing (for monitoring)
             try
             {
               VALIDATE_CANARY();
